@@ -362,7 +362,7 @@ func (db *DB) Apply(o Op, obs *Obs) ([]Outcome, error) {
 		return []Outcome{{State: n}}, nil
 	case "insert", "insertOne":
 		return db.applyInsert(o, obs, false)
-	case "save":
+	case "save", "saveStruct":
 		d := o.Docs[0]
 		idv, has := d["_id"]
 		if !has || idv == "" {
